@@ -25,3 +25,61 @@ def run_diagonal():
                         print('REPLAY: VIOLATION-CONFIRMED Matrix.diagonal disagrees with the dense matrix')
                         return
     print('REPLAY: not reproduced on the small matrices enumerated')
+
+
+def _small_matrices():
+    """(values, rowptr, colidx, nrows, ncols) of small well-formed CSR matrices, including negative, zero and NaN entries, empty rows."""
+    # no 0-row shapes: the numpy backend cannot assemble them (ValueError from numpy.concatenate([]); notes/C15-ext.md, candidate defect)
+    for nrows, ncols in ((1, 1), (2, 2), (2, 3), (3, 2), (1, 0)):
+        cells = [(r, c) for r in range(nrows) for c in range(ncols)]
+        for k in range(0, min(len(cells), 3) + 1):
+            for chosen in itertools.combinations(cells, k):
+                rowptr = numpy.array([0] + [sum(1 for r, c in chosen if r <= i) for i in range(nrows)])
+                colidx = numpy.array([c for r, c in chosen], dtype=int)
+                for pool in ((1., 2., 3.), (-1., 0., -3.), (numpy.nan, 0.5, -0.5)):
+                    yield numpy.array(pool[:len(chosen)], dtype=float), rowptr, colidx, nrows, ncols
+
+
+def run_rowsupp():
+    from nutils import matrix
+    with matrix.backend('numpy'):
+        for values, rowptr, colidx, nrows, ncols in _small_matrices():
+            A = matrix.assemble_csr(values, rowptr, colidx, ncols)
+            for tol in (0, 0.5, 0.75, 2.5):
+                want = numpy.array([any(abs(values[k]) > tol for k in range(rowptr[r], rowptr[r + 1])) for r in range(nrows)], dtype=bool)  # NaN > tol is False
+                try:
+                    # the base-class method (NumpyMatrix overrides rowsupp; scipy/MKL matrices inherit this one), run on the numpy matrix's COO export
+                    got = matrix.Matrix.rowsupp(A, tol) if tol else matrix.Matrix.rowsupp(A)
+                except Exception as e:
+                    print('rowsupp(%s) of CSR values=%s rowptr=%s colidx=%s raised %s: %s' % (tol, values.tolist(), rowptr.tolist(), colidx.tolist(), type(e).__name__, e))
+                    print('REPLAY: VIOLATION-CONFIRMED')
+                    return
+                if got.shape != want.shape or (got != want).any():
+                    print('CSR values=%s rowptr=%s colidx=%s (%dx%d): rowsupp(%s) = %s, rows holding an entry with |value| > tol: %s' % (
+                        values.tolist(), rowptr.tolist(), colidx.tolist(), nrows, ncols, tol, got.tolist(), want.tolist()))
+                    print('REPLAY: VIOLATION-CONFIRMED Matrix.rowsupp disagrees with the stored data')
+                    return
+    print('REPLAY: not reproduced on the small matrices enumerated')
+
+
+def run_pickle():
+    import pickle
+    from nutils import matrix
+    with matrix.backend('numpy'):
+        for values, rowptr, colidx, nrows, ncols in _small_matrices():
+            if numpy.isnan(values).any():
+                continue
+            A = matrix.assemble_csr(values, rowptr, colidx, ncols)
+            desc = 'CSR values=%s rowptr=%s colidx=%s (%dx%d)' % (values.tolist(), rowptr.tolist(), colidx.tolist(), nrows, ncols)
+            try:
+                B = pickle.loads(pickle.dumps(A))
+            except Exception as e:
+                print('pickle round trip of %s raised %s: %s' % (desc, type(e).__name__, e))
+                print('REPLAY: VIOLATION-CONFIRMED')
+                return
+            a, b = A.export('dense'), B.export('dense')
+            if a.shape != b.shape or (a != b).any():
+                print('%s: unpickled matrix %s differs from the original %s' % (desc, b.tolist(), a.tolist()))
+                print('REPLAY: VIOLATION-CONFIRMED pickling does not preserve the matrix')
+                return
+    print('REPLAY: not reproduced on the small matrices enumerated')
